@@ -39,6 +39,8 @@ def run(chk: Check):
     # kernels configured after construction through their public da_* attributes
     traces += D.engine_traces(["rw", "mh_on"], c2, D.SCHEDULES[2], chains=1, seed=chk.seed + 12, late=True)
     traces += D.engine_traces(["iwls"], c1, D.SCHEDULES[2], chains=1, seed=chk.seed + 13, late=True)
+    # a fractional t0; MH tuning switched on by a truthy flag that is not the object True
+    traces += D.engine_traces(["rw", "mh_on_np"], (0.5, 0.1, 0.75, 2.75, 0.3), D.SCHEDULES[0], chains=2, seed=chk.seed + 15)
     # epochs sampled in several chunks; a random walk on a parameter with bounded support (NaN ratios -> acceptance 0)
     traces += D.engine_traces(["rw", "rw_support"], c1, D.SCHEDULES[3], chains=2, seed=chk.seed + 8)
     # NUTS on a funnel: adaptation epochs with divergent transitions whose reported acceptance probability is not 0
